@@ -112,6 +112,24 @@ func (c *ctx) expr(e ast.Expr) ast.Expr {
 				v.Fun = ast.NewIdent("vs" + s.Sel.Name)
 			}
 		}
+		if s, ok := v.Fun.(*ast.SelectorExpr); ok {
+			if id, ok := s.X.(*ast.Ident); ok && id.Name == "gopool" && s.Sel.Name == "Go" {
+				c.count++
+				v.Fun = ast.NewIdent("vsGo")
+			}
+			// x.asyncGoroutineWg.Add(n) / .Done() / .Wait()
+			if in, ok := s.X.(*ast.SelectorExpr); ok && in.Sel.Name == "asyncGoroutineWg" {
+				switch s.Sel.Name {
+				case "Add", "Done", "Wait":
+					c.count++
+					args := append([]ast.Expr{&ast.UnaryExpr{Op: token.AND, X: in}}, v.Args...)
+					for i := range args {
+						args[i] = c.expr(args[i])
+					}
+					return call("vsWg"+s.Sel.Name, args...)
+				}
+			}
+		}
 		if _, isLit := v.Fun.(*ast.FuncLit); isLit {
 			v.Fun = c.expr(v.Fun)
 		}
@@ -365,6 +383,9 @@ func main() {
 		src := b.String()
 		if bytes.Contains(b.Bytes(), []byte("\"sync/atomic\"")) {
 			src += "\nvar _ = atomic.LoadInt32\n"
+		}
+		if bytes.Contains(b.Bytes(), []byte("/gopool\"")) {
+			src += "\nvar _ = gopool.Go\n"
 		}
 		dst := filepath.Join(*out, filepath.Base(fn))
 		if err := os.WriteFile(dst, []byte(src), 0o644); err != nil {
